@@ -282,50 +282,12 @@ func signature(c caseT) string {
 	return hdrClass(c)
 }
 
+// nameClass: since the repair of skipFile (fix commit 176b19a) the file-name rule is proved equal to
+// the toolchain's for every name (Props.C17.name_rule_correct); the only side condition is on the
+// context (the compiler name is not itself an OS/arch word), which the generator always satisfies.
 func nameClass(cs caseT) string {
-	c := cs.Ctx
-	name := cs.Name
-	if !strings.HasSuffix(name, ".go") || strings.HasPrefix(name, "_") || strings.HasPrefix(name, ".") {
-		return ""
-	}
-	base := strings.TrimSuffix(name, ".go")
-	if strings.Contains(base, ".") {
-		return "name-dot"
-	}
-	el := strings.Split(base, "_")
-	isTest := len(el) >= 2 && el[len(el)-1] == "test"
-	if isTest && !cs.SkipTest {
-		return "name-test-kept"
-	}
-	if isTest {
-		return "" // skipped by both
-	}
-	tl := el[1:]
-	if len(tl) == 0 {
-		return ""
-	}
-	if in(goArch, c.GOOS) || in(goOS, c.GOARCH) || !in(goOS, c.GOOS) || !in(goArch, c.GOARCH) {
-		return "name-ctx"
-	}
-	last2 := tl
-	if len(last2) > 2 {
-		last2 = last2[len(last2)-2:]
-	}
-	for _, w := range last2 {
-		if in(goOnlyOS, w) || in(goOnlyArch, w) {
-			return "name-missing-os-arch" // F19
-		}
-	}
-	for _, w := range last2 {
-		if specialWord(c, w) || in(c.Tags, w) {
-			return "name-special-word"
-		}
-	}
-	if len(tl) >= 2 {
-		y := tl[len(tl)-1]
-		if in(goOS, y) && y != c.GOOS {
-			return "name-foreign-os-last" // F18
-		}
+	if in(goOS, cs.Ctx.Compiler) || in(goArch, cs.Ctx.Compiler) {
+		return "name-ctx-compiler"
 	}
 	return ""
 }
